@@ -64,6 +64,9 @@ int main(void) {
 	int ok = 0; for (int i = 0; i < N_TERMS; i++) if (line->type == TERMS[i]) ok = 1;
 	CHECK(line->type != 0, "every line receives a kind (a line without one ends the document for the block parser)");
 	CHECK(ok, "the kind is one of the line kinds the block grammar accepts in every state");
+	/* (a line that consists of nothing but one leading blank can only be the unterminated last line: nothing follows it) */
+	int only_blank = (IN.t1 == NON_INDENT_SPACE || (IN.t1 == TEXT_PLAIN && IN.l1 == 1 && buf[0] == ' ')) && !(IN.two & 1);
+	if (line->type == LINE_EMPTY && !only_blank) CHECK(!e.allow_meta, "an empty line (also one holding only indentation) ends the metadata block: later lines are never read as metadata");
 	CHECK(!bad_pos, "line-level scanners are asked about the start of the line, token-level scanners about the first token");
 	COVER_OPT(line->type == LINE_FENCE_BACKTICK_START_5); COVER_OPT(line->type == LINE_META); COVER_OPT(line->type == LINE_TABLE_SEPARATOR); COVER_OPT(line->type == LINE_PLAIN && n_scan >= 2); 
 #ifndef ONE_TOKEN
